@@ -608,6 +608,39 @@ def path_call_facts(unit, badf):
     return facts
 
 
+def trace_facts(tunit):
+    """tunit: wasi.c preprocessed with -DWASI_TRACE_ENABLED=1 (every WASI_TRACE((fmt, args)) is a call of tracePrintf).
+    tracePrintf is mocked by a printf that walks the format and dereferences every %s argument; `free` poisons.
+    Probes: fd_close of an opened file / a pre-opened directory / a standard stream / an empty slot, then a second
+    fd_close and a path call on the closed slot, both ABIs.  -> True iff no trace argument reads a released object."""
+    def tracef(w):
+        def f(it, fmt, *args):
+            text = "".join(chr(b) for b in w._cstr(it, fmt, "trace format"))
+            k = 0
+            for m in re.finditer(r"%[-+ #0-9.]*(?:l|ll|h|hh|z)?([a-zA-Z%])", text):
+                if m.group(1) == "%":
+                    continue
+                expect(k < len(args), "wasi.c", f"trace format `{text}` has more conversions than arguments")
+                if m.group(1) == "s":
+                    w._cstr(it, args[k], "trace %s argument")      # Crash(useAfterFree / nullDeref) on a dead string
+                k += 1
+            return None
+        return f
+    live = True
+    for abi in ABI:
+        for slot in (4, 3, 0, 5):
+            w = world(tunit)
+            w.it.mocks["tracePrintf"] = tracef(w)
+            w.it.mocks.setdefault("strerror", lambda it, e: Ptr(ci.bytes_cell([ord("e"), 0], "strerror"), 0))
+            for call, args in (("fd_close", (slot,)), ("fd_close", (slot,)), ("fd_sync", (slot,)), ("path_unlink_file", (slot, 100, 1))):
+                r = w.call(ABI[abi] + call, 0, *args)
+                if r[0] != "ret":
+                    expect(r[0] == "crash", "wasi.c", f"tracing build, {call}({slot}): {r}")
+                    live = False
+                    break
+    return live
+
+
 def lean_list(items):
     return "[" + ", ".join(items) + "]"
 
@@ -697,6 +730,11 @@ def generate(repo):
     og = lambda x: "none" if x is None else f"some {x}"
     w("/-- after fd_close the table entry has a NULL path -/")
     w(f"def closeClearsPath : Bool := {b(clears)}")
+    ttoks, ttypedefs = ci.preprocess(repo, ["-DWASI_TRACE_ENABLED=1"])
+    w("/-- wasi.c preprocessed with -DWASI_TRACE_ENABLED=1 and interpreted (tracePrintf = a printf that dereferences its %s")
+    w("    arguments, free poisons): fd_close of an opened file / pre-open / standard stream / empty slot, a second fd_close")
+    w("    and later calls on the slot — no trace argument reads a released object -/")
+    w(f"def traceArgsLive : Bool := {b(trace_facts(ci.Unit(ttoks, ttypedefs)))}")
     w("/-- a slot with no native fd, no DIR and no path is rejected (EBADF) by fd_close and fd_sync -/")
     w(f"def getRejectsClosed : Bool := {b(get_rejects)}")
     w("/-- the errno returned for a descriptor whose path is NULL where the path is needed; `none` = the NULL path is dereferenced -/")
